@@ -89,8 +89,6 @@ def run(ctx):
             report(ctx, "C18 clause=%s family=%s member=%s" % (f["clause"], e["fam"], e["member"]), {"clause": f["clause"], "event": e})
     # ---- tables
     rows = [("Hill", k) for k in range(1000)] + [("Shekel", k) for k in range(1000)]
-    if qk:
-        rows = rng.sample(rows[:1000], 150) + rng.sample(rows[1000:], 150)
     jobs = [(i + 1, fam, fn, TV, DELTA_REL, REL, ("min", "max", "lip"), None) for i, (fam, fn) in enumerate(rows)]
     corrupt = corrupt_rows(rng)
     cjobs = [(100000 + i, fam, fn, TV, DELTA_REL, REL, parts, tables) for i, (fam, fn, tables, parts, _, _) in enumerate(corrupt)]
